@@ -92,10 +92,12 @@ def check_selectors(chk, rep, repo):
     chk.floor("calls into KNNSubgraph.create_arcs / calculate_pdf", n_calls, 6)
 
 
-def check_row_ids(chk, rep, repo):
+def check_row_ids(chk, rep, repo, only=None, floor=3):
     n = 0
     for fi in repo.all_functions():
         if fi.module.startswith("opfython.utils"):
+            continue
+        if only is not None and fi.qual not in only:
             continue
         w = Walker(repo, fi, self_class=fi.cls, inline=lambda f: False)
         for ev in w.events:
@@ -137,7 +139,9 @@ def check_row_ids(chk, rep, repo):
                                 detail = ("synthesised row id (node count + i) used although the caller may have "
                                           "given the rows' index array")
             rep.ev("K6", ev, ok, detail)
-    chk.floor("Node constructions", n, 3)
+    chk.floor("Node constructions", n, floor)
+    if only is not None:
+        return
     # models forward I_* next to the matching X_*
     nf = 0
     for cls in ("SupervisedOPF", "SemiSupervisedOPF", "KNNSupervisedOPF", "UnsupervisedOPF"):
